@@ -108,8 +108,10 @@ class DataStream(object):
         """
         Set start time before next set of samples.
         """
+        # Convert first: an instant that is refused must not start a new observation
+        t = float(t)
         self.start_obs = True
-        self.t_start = float(t)
+        self.t_start = t
         self._t_ref, self._n_ref = self.t_start, 0
         
     def add_time(self, t):
